@@ -267,6 +267,19 @@ def extract(node, variant, report):
             k = close + 1
             continue
         k += 1
+    # R8 (cont.) private type-level items -> pub (Verus: a non-visible datatype cannot be used in `pub open spec fn`)
+    if it.kind in ('struct', 'enum', 'const', 'type', 'trait'):
+        kwi = src._pos2idx[it.head]
+        prev = ct[kwi - 1] if kwi > 0 else None
+        has_vis = False
+        k2 = kwi - 1
+        while k2 >= i0:
+            if ct[k2].kind == 'ident' and ct[k2].text == 'pub':
+                has_vis = True
+            k2 -= 1
+        if not has_vis:
+            edits.append((it.head, it.head, 'pub ', 'R8'))
+            rule('R8')
     # R8 (cont.) private struct fields -> pub (Verus treats a datatype with a private field as opaque in specs)
     if it.kind == 'struct':
         # find the field list: first '{' or '(' after the name/generics
